@@ -3,6 +3,8 @@ import TallyVerif.Driver.Engine
 import TallyVerif.Driver.Analyze
 import TallyVerif.Driver.Migrate
 import TallyVerif.Model.Pipeline
+import TallyVerif.Driver.Config
+import TallyVerif.Model.PipelineCfg
 /-! op `pipeline`: `tally up` end to end on the models (C05 parser → transforms → engine or legacy tuple loop → totals). -/
 namespace TallyVerif.Driver
 open Lean TallyVerif.Py TallyVerif.Expr TallyVerif.Rules TallyVerif.Engine TallyVerif.Pipeline
@@ -58,7 +60,157 @@ def sourceOfJson (sj : Json) : Source :=
   | .error _ => ⟨false, none⟩                    -- cmd_run: "Error parsing" — the source is skipped
   | .ok txns => ⟨false, some (txns.map rowOfCsv)⟩
 
+/-! ### op `pipeline` with a `settings` key: `PipelineCfg.upFromSettings` — the model starts at the loaded settings object.
+
+Input: `settings` (a `Y` value), `cfgdir`, `exists` / `views_ok` / `ext` as for op `config`; `files` = `[[path, text | null], …]`
+(the text as `open(path, 'r', encoding='utf-8')` yields it; null: opening or decoding raises); `regex` = `[[delimiter, null |
+[[stripped line, [groups…] | null], …]], …]` (null: `re.error`); `floats` = `[[text, bits | null], …]`; `dates` = `[[format,
+token, iso | null], …]`; `rulebook` / `supp` / `oracle` as for the plain `pipeline` op, plus `rulebook_from` = `{path, format}`:
+the rules file the shipped rulebook was loaded from — it must be the one the MODEL selects.  `misses` in the answer lists the
+oracle questions the model asked that the tables do not answer. -/
+
+private def optTable (j : Json) (k : String) : List (String × Option String) :=
+  (jarr j k).map fun p => match p with
+    | .arr #[.str a, .str b] => (a, some b)
+    | .arr #[.str a, _] => (a, none)
+    | _ => ("", none)
+
+private def dateTable (j : Json) : List (String × Option String) :=
+  (jarr j "dates").map fun p => match p with
+    | .arr #[.str f, .str t, .str d] => (f ++ "\u0001" ++ t, some d)
+    | .arr #[.str f, .str t, _] => (f ++ "\u0001" ++ t, none)
+    | _ => ("", none)
+
+private def regexTable (j : Json) : List (String × Option (List (String × Option (List (List Char))))) :=
+  (jarr j "regex").map fun p => match p with
+    | .arr #[.str d, .arr lines] => (d, some (lines.toList.map fun l => match l with
+        | .arr #[.str a, .arr g] => (a, some (g.toList.map fun x => (asStr x).toList))
+        | .arr #[.str a, _] => (a, none)
+        | _ => ("", none)))
+    | .arr #[.str d, _] => (d, none)
+    | _ => ("", none)
+
+def worldOfJson (j : Json) : PipelineCfg.World :=
+  let files := optTable j "files"
+  let floats := optTable j "floats"
+  let dates := dateTable j
+  let rx := regexTable j
+  { text := fun p => ((files.lookup (String.ofList p)).join).map String.toList
+    regex := fun d => match rx.lookup (String.ofList d) with
+      | some (some lines) => some fun s => (lines.lookup (String.ofList s)).join
+      | _ => none
+    csv := { pyFloat := fun s => match floats.lookup (String.ofList s) with
+               | some (some b) => some (TallyVerif.Csv.F64.ofBits (b.toNat?.getD 0))
+               | _ => none
+             strptime := fun f tok => match dates.lookup (String.ofList f ++ "\u0001" ++ String.ofList tok) with
+               | some (some d) => some d.toList
+               | _ => none }
+    special := fun _ => none }
+
+/-- the oracle questions `parsePlanned` asks about one planned call that the shipped tables leave open -/
+def plannedMisses (j : Json) (p : TallyVerif.Config.Planned) : List Json :=
+  let files := optTable j "files"
+  let floats := optTable j "floats"
+  let dates := dateTable j
+  let rx := regexTable j
+  match p.call with
+  | .generic g nm ds =>
+    match TallyVerif.Config.readArgs g nm ds with
+    | .error _ => []
+    | .ok ra =>
+      match files.lookup (String.ofList p.path) with
+      | none => [Json.arr #[.str "file", jS p.path]]
+      | some none => []
+      | some (some txt) =>
+        let text := txt.toList
+        let need (m : List Char → Option (List (List Char))) : List Json :=
+          (TallyVerif.Csv.iterRows m ra.delim ra.hasHeader text).flatMap fun row =>
+            if row.length ≤ TallyVerif.Csv.maxCol ra.spec then [] else
+            match TallyVerif.Csv.describe ra.spec row with
+            | .error _ => []
+            | .ok (desc, _) =>
+              let dsr := TallyVerif.Csv.cell row ra.spec.dateCol
+              let am := TallyVerif.Csv.cell row ra.spec.amountCol
+              if dsr.isEmpty || desc.isEmpty || am.isEmpty then [] else
+              match TallyVerif.Csv.dateToken ra.spec dsr with
+              | none => []
+              | some tok =>
+                match dates.lookup (String.ofList ra.spec.dateFormat ++ "\u0001" ++ String.ofList tok) with
+                | none => [Json.arr #[.str "strptime", jS ra.spec.dateFormat, jS tok]]
+                | some none => []
+                | some (some _) =>
+                  let cl := (TallyVerif.Csv.cleanAmount ra.eu am).2
+                  match floats.lookup (String.ofList cl) with
+                  | none => [Json.arr #[.str "float", jS cl]]
+                  | some _ => []
+        match ra.delim with
+        | .csv _ => need fun _ => none
+        | .regex =>
+          match g.delimiter with
+          | .str d =>
+            match rx.lookup (String.ofList d) with
+            | none => [Json.arr #[.str "regex", jS d]]
+            | some none => []
+            | some (some lines) =>
+              let asked := ((TallyVerif.Csv.splitLines text).map TallyVerif.Csv.strip).filter fun s => !s.isEmpty
+              let open_ := asked.filter fun s => (lines.lookup (String.ofList s)).isNone
+              if open_.isEmpty then need fun s => (lines.lookup (String.ofList s)).join
+              else open_.map fun s => Json.arr #[.str "regexline", jS d, jS s]
+          | _ => []
+  | _ => []
+
+def reportJson (cls : List Classified) : List (String × Json) :=
+  let s := TallyVerif.Totals.analyze floatNum asciiLower (cls.map toTotals)
+  [("txns", .arr (cls.map fun c => obj [("merchant", .str c.merchant), ("category", .str c.category),
+      ("subcategory", .str c.subcategory), ("tags", .arr ((sortStrs c.tags).map Json.str).toArray),
+      ("amount", .str (toString c.amount.toNat)), ("month", .str c.month)]).toArray),
+   ("income", floatToJson s.income), ("spending", floatToJson s.spending), ("credits", floatToJson s.credits),
+   ("transfers_in", floatToJson s.transfersIn), ("transfers_out", floatToJson s.transfersOut),
+   ("investment", floatToJson s.investment), ("count", .num s.count),
+   ("cash_flow", floatToJson (TallyVerif.Totals.cashFlow floatNum asciiLower s)),
+   ("by_merchant", .arr (s.byMerchant.map fun (k, c, v) => Json.arr #[.str k, .num c, floatToJson v]).toArray),
+   ("by_month", .arr (s.byMonth.map fun (k, v) => Json.arr #[.str k, floatToJson v]).toArray)]
+
+def handlePipelineCfg (j : Json) : Json :=
+  let env := envOfJson j
+  let y := yOfJson (jget j "settings")
+  let w := worldOfJson j
+  let o := oraclesOf (tableOfJson (jget j "oracle"))
+  let rb := rulebookOfJson (jget j "rulebook")
+  let supp := pairsVal (jget j "supp")
+  let fnames := fnNames j
+  let from_ := jget j "rulebook_from"
+  let cands := candidatePaths env.cfgDir y
+  let base : List (String × Json) := [("candidates", Json.arr (cands.map jS).toArray)]
+  match TallyVerif.Config.resolveConfig env y with
+  | .error e => obj (base ++ [("stop", .str "load"), ("cls", .str (pyExcName e.cls))])
+  | .ok cfg =>
+    match TallyVerif.Config.planSources (jbool j "quiet") env cfg with
+    | .error e => obj (base ++ [("stop", .str "run"), ("cls", .str (pyExcName e.cls))])
+    | .ok plan =>
+      let misses := plan.flatMap (plannedMisses j)
+      let special := plan.any fun p => match p.call with | .generic .. => false | _ => true
+      let planJ : Json := .arr (plan.map plannedToJson).toArray
+      if special then obj (base ++ [("err", .str "unmodelled"), ("why", .str "type: amex / boa source"), ("plan", planJ)])
+      else if !misses.isEmpty then obj (base ++ [("misses", .arr misses.toArray), ("plan", planJ)])
+      else
+        -- the rulebook the harness shipped must have been loaded from the file the MODEL selects
+        let sel : Json := rulesFileToJson cfg.rulesFile
+        if sel != from_ then
+          obj (base ++ [("err", .str "rules-file-mismatch"), ("model_selects", sel), ("rulebook_from", from_), ("plan", planJ)])
+        else
+          let classify : PipelineCfg.ClassEnv → Row → Except Err Classified := fun ce =>
+            classifyRow o fnames modelKey supp
+              { rb with mode := match ce.ruleMode with | .mostSpecific => Mode.mostSpecific | .firstMatch => Mode.firstMatch }
+          match PipelineCfg.upFromSettings (jbool j "quiet") env w classify y with
+          | .error (.model e) => errJson e
+          | .error (.load e) => obj (base ++ [("stop", .str "load"), ("cls", .str (pyExcName e.cls))])
+          | .error (.run e) => obj (base ++ [("stop", .str "run"), ("cls", .str (pyExcName e.cls))])
+          | .ok cls => obj (base ++ reportJson cls ++ [("plan", planJ),
+              ("mode", .str (match cfg.ruleMode with | .mostSpecific => "most_specific" | .firstMatch => "first_match"))])
+
 def handlePipeline (j : Json) : Json :=
+  if (j.getObjVal? "settings").isOk then handlePipelineCfg j else
   let o := oraclesOf (tableOfJson (jget j "oracle"))
   let rb := rulebookOfJson (jget j "rulebook")
   let supp := pairsVal (jget j "supp")
